@@ -265,6 +265,84 @@ def replay_relabel(gridname, op):
     return {"violates": r["status"] == "violated", "detail": r["detail"]}
 
 
+def ob_extreme_scales(key, mode):
+    """bounded (floats): the real kernel function agrees with its closed form (1e-8) for point sets scaled by 1e-9 .. 1e6 and translated 1e5 diameters away from
+    the origin, with the wavenumber scaled inversely: absolute tolerances, clamps and numerically unstable (cancelling) distance formulas inside a kernel are
+    invisible to the real-arithmetic proofs and show up here."""
+    out = []
+    for case, _ in KR.param_cases(key):
+        rp = KR.extreme_scale_replay(key, mode, case)
+        if rp["violates"]:
+            out.append((case, violated("kernel %s (%s, %s) differs from its closed form at an extreme scale / far from the origin: %s" % (key, mode, case, rp),
+                                       witness=rp.get("where"), replay={"callable": "vlib.kernelrun:extreme_scale_replay", "kwargs": {"key": key, "mode": mode, "case": case},
+                                                                       "confirmed": True, "result": rp}, signature="extreme-scales/%s/%s" % (key, mode))))
+        else:
+            out.append((case, held("worst relative deviation %.1e over 6 scales x 2 translations" % rp["relative_error"])))
+    return out
+
+
+def replay_maxwell_relabel(gridname, segments, perm_seed):
+    """Maxwell electric / magnetic field matrices (RWG trial, SNC test) on a grid and on its renumbered copy (vertices and elements permuted): equal up to the
+    permutation of the edge dofs and the sign changes of the basis functions (the sign of an edge function is fixed by which of its elements has the lower number)."""
+    import bempp_cl.api as api
+
+    warnings.simplefilter("ignore")
+    g = Z.grid_with_domains(gridname)
+    rng = np.random.RandomState(perm_seed)
+    pv = rng.permutation(g.number_of_vertices)
+    pe = rng.permutation(g.number_of_elements)
+    if perm_seed == 0:
+        pe = np.arange(g.number_of_elements)[::-1].copy()      # reversal: what was numbered last comes first
+    newv = np.empty_like(g.vertices)
+    newv[:, pv] = g.vertices
+    g2 = SG.make_grid(newv, pv[g.elements[:, pe].astype(int)], g.domain_indices[pe])
+    inv = np.argsort(pe)                                     # old element E is new element inv[E]
+    kw = {} if segments is None else {"segments": list(segments)}
+    par = Z.params(3, 3)
+    ra, sa = api.function_space(g, "RWG", 0, **kw), api.function_space(g, "SNC", 0, **kw)
+    rb, sb = api.function_space(g2, "RWG", 0, **kw), api.function_space(g2, "SNC", 0, **kw)
+    if ra.global_dof_count != rb.global_dof_count:
+        return {"violates": True, "detail": "dof counts differ: %d vs %d" % (ra.global_dof_count, rb.global_dof_count)}
+
+    def mapping(a, b):
+        key_b = {}
+        for d in range(b.global_dof_count):
+            E, i = b.global2local[d][0]
+            key_b[frozenset(int(x) for x in g2.edges[:, g2.element_edges[i, E]])] = d
+        perm, sign = np.zeros(a.global_dof_count, dtype=int), np.zeros(a.global_dof_count)
+        for d in range(a.global_dof_count):
+            E, i = a.global2local[d][0]
+            verts = frozenset(int(pv[x]) for x in g.edges[:, g.element_edges[i, E]])
+            d2 = key_b[verts]
+            perm[d] = d2
+            j = int(inv[E])
+            i2 = [q for q in range(3) if frozenset(int(x) for x in g2.edges[:, g2.element_edges[q, j]]) == verts][0]
+            sign[d] = a.local_multipliers[E, i] * b.local_multipliers[j, i2]
+        return perm, sign
+
+    pr, sr = mapping(ra, rb)
+    ps, ss = mapping(sa, sb)
+    worst, bad = 0.0, {}
+    for name in ("maxwell_electric", "maxwell_magnetic"):
+        A = np.asarray(Z.dense(Z.boundary_operator(name, ra, ra, sa, par)))
+        B = np.asarray(Z.dense(Z.boundary_operator(name, rb, rb, sb, par)))
+        Bp = B[np.ix_(ps, pr)] * ss[:, None] * sr[None, :]
+        e = float(np.abs(Bp - A).max() / np.abs(A).max())
+        worst = max(worst, e)
+        if e > 1e-10 or np.any(sr == 0) or np.any(ss == 0):
+            bad[name] = e
+    return {"violates": bool(bad), "failing": bad, "worst": worst, "dofs": int(ra.global_dof_count)}
+
+
+def ob_maxwell_relabel(gridname, segments, perm_seed):
+    r = replay_maxwell_relabel(gridname, segments, perm_seed)
+    if r["violates"]:
+        return violated("Maxwell matrices on %s (segments %s) are not equivariant under renumbering (up to dof permutation and signs): %s" % (gridname, segments, r.get("failing", r.get("detail"))),
+                        witness={"grid": gridname, "segments": segments, "permutation_seed": perm_seed}, signature="relabel/maxwell",
+                        replay={"callable": "checks.c03:replay_maxwell_relabel", "kwargs": {"gridname": gridname, "segments": segments, "perm_seed": perm_seed}, "confirmed": True})
+    return held("%d edge dofs: permuted and sign-corrected matrices agree to %.1e" % (r["dofs"], r["worst"]))
+
+
 def ob_swapped_normals(op, kind_override=None):
     """bounded: swapped_normals=[2] == physically reversing the orientation of the elements of domain 2 (DP0 x DP0 spaces, P1 x P1 for
     the hypersingular operators; element, vertex and DOF numbering unchanged, only the local vertex order flips): equal up to
@@ -363,6 +441,14 @@ def main():
     for op in ("laplace_double", "laplace_adjoint", "helmholtz_double"):
         # P1: the colour-sorted element order of the launches is not the identity
         run.add("matrix.swapped-normals.%s[P1]" % op, "bounded", ob_swapped_normals, op, ("P", 1))
+    # Maxwell spaces: closed grid, and a multi-domain grid with a junction (two tetrahedra sharing a face) restricted to the two caps
+    for gname, seg, seed in (("octa", None, 5), ("two_tets_face", [1, 2], 0), ("two_tets_face", [1, 2], 4), ("two_tets_face", [2, 3], 0)):
+        run.add("matrix.relabel.maxwell[%s segments=%s perm=%d]" % (gname, seg, seed), "bounded", ob_maxwell_relabel, gname, seg, seed)
+    tables = KR.kernel_tables()
+    for mode in ("regular", "singular"):
+        for key in sorted(tables["kernel_functions_" + mode]):
+            if key in KS.SPEC:
+                run.add("numeric.extreme-scales.%s.%s" % (key, mode), "bounded", ob_extreme_scales, key, mode)
     sw = ("DP", 1, {"swapped_normals": [2]})
     for at, pc in (("default_scalar", "-"), ("laplace_hypersingular", "-"), ("helmholtz_hypersingular", "ki!=0"), ("modified_helmholtz_hypersingular", "w")):
         run.add("pipeline.%s[tetra, swapped normals on one domain of the test space only]" % at, "post", PL.ob_pipeline, "tetra", sw, dp1, [1, 2, 2, 1], None, at, pc)
